@@ -339,6 +339,11 @@ def bitExpr (call : Ctx) (benv : BEnv) : Expr → Option (VTy × List Bool × P 
     match bitExpr call benv a with
     | some (.s .bool, [b], p1, env1) => some (.s .bool, [!b], p1, env1)
     | _ => none
+  /- `!` on an integer: one NOT gate per wire -/
+  | .un .not (.int k) a =>
+    match bitExpr call benv a with
+    | some (.s (.int k'), bs, p1, env1) => if k' = k then some (.s (.int k), bs.map (!·), p1, env1) else none
+    | _ => none
   | .un .neg (.int k) a =>
     if k.signed then
       match bitExpr call benv a with
@@ -779,6 +784,19 @@ def callAt (prog : Prog) : Nat → CallFn
 /-- a function body with calls inlined as deep as the program can nest them -/
 def bitBody (prog : Prog) (benv : BEnv) (body : StmtList) : Option (VTy × List Bool × P × BEnv) :=
   bitStmts ⟨callAt prog (prog.fns.length + 1), prog.enum?⟩ benv body
+
+/-- the typing judgement the model of the compiler induces: the body of the function, compiled on all-zero wires
+for its parameters (and the wires of the constants), is inside the model and yields wires of the declared return type -/
+def fnTyped (prog : Prog) (d : FnDef) : Bool :=
+  match constEnv prog with
+  | none => false
+  | some cb =>
+    match bitBody prog ((d.params.map fun xt => (xt.1, VTy.ofTy xt.2, List.replicate xt.2.size false)).reverse ++ cb) d.body with
+    | some (t, _, _, _) => t == VTy.ofTy d.ret
+    | none => false
+
+/-- every function of the program is typed -/
+def progTyped (prog : Prog) : Bool := prog.fns.all (fnTyped prog)
 
 end Bit
 end GV
